@@ -52,6 +52,7 @@ TRUSTED = ['c16_doc: the raw haversine distances are recovered from the public c
 
 ERR_TEXT = dict(c16.ERRS)
 ERR_TEXT[106] = 'not enough error codes specified'
+ERR_TEXT[107] = 'error codes, travel times and distances must have the same length'
 
 
 # ------------------------------------------------------------------------------------------------ generators
@@ -612,8 +613,13 @@ def oracle_approx(c, impl, v):
                 v.append({'class': 'approx-diagonal', 'what': '%s entry (%d,%d) = %s/%s' % (m['profile'], i, i, times[i * n + i], dists[i * n + i])})
             for j in range(n):
                 a, b = i * n + j, j * n + i
+                if raw[a] != raw[b]:
+                    # since repair d74b2b6 the function is symmetric to the last bit (C16_haversine_structure_symmetric)
+                    v.append({'class': 'approx-raw-distance-asymmetric',
+                              'what': 'cell (%d,%d): haversine %r one way, %r the other' % (i, j, float(raw[a]), float(raw[b]))})
                 if times[a] != times[b] or dists[a] != dists[b]:
-                    # recorded finding F6: the raw distances differ in the last bits only and straddle a rounding boundary
+                    # former finding F6 (repaired by d74b2b6): the raw distances differ in the last bits only and straddle a
+                    # rounding boundary
                     big = max(raw[a], raw[b])
                     ulp = F(2) ** (math.floor(math.log2(big)) - 52) if big > 0 else F(0)
                     last_bit = (abs(raw[a] - raw[b]) <= 4 * ulp and abs(times[a] - times[b]) <= 1 and abs(dists[a] - dists[b]) <= 1)
@@ -726,7 +732,8 @@ def oracle_doc(c, impl):
             v.append({'class': 'fractional-time-truncated-to-matrix-second',
                       'what': 'document query %s at t=%s returns the value of the matrix of the same whole second instead of the interpolant %s' % (q, t, dur)})
             continue
-        # the entry in force (left matrix strictly between two stamps, the matrix itself at / outside) flagged unreachable
+        # the entry in force (left matrix strictly between two stamps, the matrix itself at / outside) flagged unreachable:
+        # negative duration and distance (true since repair d8f731f of /repo; the class below was finding C16-F5)
         left = None
         for j in range(len(ms) - 1):
             if stamps[j] < t < stamps[j + 1]:
